@@ -339,7 +339,6 @@ def slack_rename(label):
 def ineq_bqm_case(ctx, r, lines, checks):
     vt = 'SPIN' if r.random() < .12 else 'BINARY'
     kind = r.choice(['cy64', 'cy64', 'obj'])
-    _, b = make_bqm(kind, vt)
     n = r.randint(1, 5)
     pool = r.sample(LABELS, n)
     terms = []
@@ -359,6 +358,55 @@ def ineq_bqm_case(ctx, r, lines, checks):
     cross = r.random() < .12
     lam = r.choice([F(1), F(2), F(1, 2), F(3)])
     label = r.choice(['c', 'k0', 'x_y'])
+    ineq_bqm_eval(ctx, r, lines, checks, vt, kind, terms, c, lb, ub, cross, lam, label)
+
+
+def plan_class(coeffs, c, lb, ub):
+    """the branch of the planning step, computed from the definition (independent of the code and of the model)"""
+    tu = sum(a for a in coeffs if a > 0); tl = sum(a for a in coeffs if a < 0)
+    ubc = min(tu, ub - c); lbc = max(tl, lb - c)
+    if tu <= ubc and tl >= lbc:
+        return 'skip'
+    if ubc < lbc:
+        return 'infeasible'
+    if ubc == lbc:
+        return 'equality:given' if lb == ub else 'equality:by-tightening'
+    return 'slack'
+
+
+def ineq_bqm_sweep(ctx, r, lines, checks):
+    """systematic part: ALL coefficient vectors over a small alphabet x constants x ALL bound pairs around the reach of the
+    terms (two-sided, and both one-sided forms with the int64 extremes) — in particular every constraint whose tightened
+    range `min(tu, ub-c) - max(tl, lb-c)` is 0 although lb != ub (equality short-cut reached by tightening only)."""
+    alphabet = ctx.scale([-2, -1, 1, 2], [-3, -2, -1, 1, 2, 3])
+    maxlen = ctx.scale(2, 3)
+    consts = ctx.scale([0, 1], [-1, 0, 2])
+    names = ['a', 'b', 'c']
+    todo = []
+    for n in range(1, maxlen + 1):
+        for vec in itertools.product(alphabet, repeat=n):
+            if list(vec[1:]) != sorted(vec[1:]) and n == 3:
+                continue   # order of the tail is immaterial for the plan: keep one representative per multiset (thorough, n = 3)
+            tu = sum(a for a in vec if a > 0); tl = sum(a for a in vec if a < 0)
+            for c in consts:
+                lo, hi = tl - 1 + c, tu + 1 + c
+                bounds = [(lb, ub) for lb in range(lo, hi + 1) for ub in range(lb, hi + 1)]
+                bounds += [(-(2 ** 63), ub) for ub in range(lo, hi + 1)] + [(lb, 2 ** 63 - 1) for lb in range(lo, hi + 1)]
+                for lb, ub in bounds:
+                    todo.append((vec, c, lb, ub))
+    # quick tier: every tightened-range-0 constraint, and a sample of the others
+    for vec, c, lb, ub in todo:
+        pc = plan_class(vec, c, lb, ub)
+        if ctx.tier == 'quick' and pc != 'equality:by-tightening' and r.random() > .12:
+            continue
+        terms = list(zip(names, vec))
+        if len(vec) >= 2 and r.random() < .15:
+            terms = [(names[0], a) for a in vec[:2]] + terms[2:]    # the same vector on a repeated label
+        ineq_bqm_eval(ctx, r, lines, checks, 'BINARY', 'obj' if r.random() < .2 else 'cy64', terms, c, lb, ub, False, F(r.choice([1, 2])), 'c', sweep=True)
+
+
+def ineq_bqm_eval(ctx, r, lines, checks, vt, kind, terms, c, lb, ub, cross, lam, label, sweep=False):
+    _, b = make_bqm(kind, vt)
     line = (f"ineqbqm {rat(lam)} {label.encode().hex()} {c} {lb} {ub} {int(cross)} " + ','.join(f'{lab(v)}={a}' for v, a in terms))
     src = (HDR + make_src(kind, vt) + f'\nterms = {terms!r}\nlam, c, lb, ub = {float(lam)!r}, {c}, {lb}, {ub}\n'
            'def coef(b): return ({v: F(b.get_linear(v)) for v in b.variables}, {(u, v): F(q) for u, v, q in b.iter_quadratic()}, F(b.offset))\n'
@@ -388,12 +436,15 @@ def ineq_bqm_case(ctx, r, lines, checks):
             warnings.simplefilter('ignore')
             sl = b.add_linear_inequality_constraint(iter(terms) if r.random() < .2 else list(terms), conv(lam), label, constant=c, lb=lb, ub=ub, cross_zero=cross)
         raised = False
-    except ValueError:
+        exc = None
+    except Exception as e:  # noqa  ANY exception is a refusal ("refuses only truly infeasible constraints")
         raised = True
-    except Exception as e:  # noqa  any other exception is a refusal too ("refuses only truly infeasible constraints")
-        raised = True
-        ctx.tick('ineqbqm:raises:' + type(e).__name__)
+        exc = type(e).__name__
+        if exc != 'ValueError':
+            ctx.tick('ineqbqm:raises:' + exc)
     ctx.tick(f'ineqbqm:{vt}' + (':raises' if raised else '') + (':cross' if cross else ''))
+    if vt == 'BINARY' and not cross:
+        ctx.tick('ineqbqm:plan:' + plan_class([a for _, a in terms], c, lb, ub) + (':sweep' if sweep else ''))
     ctx.case(('ineqbqm', line, kind, vt), nontrivial=not raised,
              sample=dict(vartype=vt, terms=repr(terms), constant=c, lb=lb, ub=ub, lam=str(lam)))
     cls = 'SPIN model' if vt == 'SPIN' else ('cross_zero=True' if cross else 'BINARY model')
@@ -406,7 +457,8 @@ def ineq_bqm_case(ctx, r, lines, checks):
     if raised:
         if anyfeas and not cross:
             bad = True
-            ctx.fail('property', site, cls if vt == 'SPIN' else cls + ', refuses a feasible constraint', f'{vt} terms {terms!r} c={c} lb={lb} ub={ub}: ValueError although some assignment is feasible', repro=src)
+            ctx.fail('property', site, cls if vt == 'SPIN' else cls + ', refuses a feasible constraint', f'{vt} terms {terms!r} c={c} lb={lb} ub={ub}: {exc} although some assignment is feasible '
+                     f'(branch by definition: {plan_class([a for _, a in terms], c, lb, ub)})', repro=src)
         out = 'raise'
     else:
         c1 = coef(b)
@@ -474,7 +526,7 @@ def ineq_dqm_case(ctx, r, lines, checks):
            'e0 = {t: F(float(d.energy(dict(zip(vs, t))))) for t in orig}\n'
            'try:\n'
            f'    sl = d.add_linear_inequality_constraint(terms, lam, {label!r}, constant=c, lb=lb, ub=ub, slack_method={method!r}, cross_zero={cross})\n'
-           'except ValueError:\n'
+           'except Exception:\n'
            '    assert not any(lb <= val(dict(zip(vs, t))) <= ub for t in orig), "refused a feasible constraint"\n'
            '    raise SystemExit(0)\n'
            'ss = [v for v in d.variables if v not in vs]\n'
@@ -493,8 +545,12 @@ def ineq_dqm_case(ctx, r, lines, checks):
             warnings.simplefilter('ignore')
             sl = d.add_linear_inequality_constraint(list(call), float(lam), label, constant=cst, lb=lb, ub=ub, slack_method=method, cross_zero=cross)
         raised = False
-    except ValueError:
+        exc = None
+    except Exception as e:  # noqa  ANY exception is a refusal
         raised = True
+        exc = type(e).__name__
+        if exc != 'ValueError':
+            ctx.tick('ineqdqm:raises:' + exc)
     ctx.tick(f'ineqdqm:{method}' + (':raises' if raised else '') + (':cross' if cross else '') + (':preexisting-adj' if any(st0[4]) else ''))
     ctx.case(('ineqdqm', line), nontrivial=not raised, sample=dict(method=method, terms=repr(call), constant=cst, lb=lb, ub=ub))
     site = 'DQM.add_linear_inequality_constraint'
@@ -503,7 +559,7 @@ def ineq_dqm_case(ctx, r, lines, checks):
     if raised:
         if anyfeas and not cross:
             bad = True
-            ctx.fail('property', site, cls + ', refuses a feasible constraint', f'terms {call!r} c={cst} lb={lb} ub={ub}: ValueError although some assignment is feasible', repro=src)
+            ctx.fail('property', site, cls + ', refuses a feasible constraint', f'terms {call!r} c={cst} lb={lb} ub={ub}: {exc} although some assignment is feasible', repro=src)
         out = 'raise'
     else:
         svars = [v for v in d.variables if v not in names]
@@ -883,6 +939,7 @@ def run(ctx):
         eq_dqm_case(ctx, r, lines, checks)
     for _ in range(ctx.scale(220, 5000)):
         ineq_bqm_case(ctx, r, lines, checks)
+    ineq_bqm_sweep(ctx, r, lines, checks)
     for _ in range(ctx.scale(160, 4000)):
         ineq_dqm_case(ctx, r, lines, checks)
     benc_cases(ctx, r, lines, checks)
